@@ -132,6 +132,9 @@ func checkGenerator(r *run) {
 		}},
 		{"new-entries", func(l, e []any) ([]any, []any) {
 			l = append(l, map[string]any{"licenseId": "Zz-Verif-New-1.0", "name": "new active", "isDeprecatedLicenseId": false, "referenceNumber": 9001, "seeAlso": []any{}, "isOsiApproved": false, "reference": "x", "detailsUrl": "y"})
+			l = append(l, map[string]any{"licenseId": "Zz-Verif.New-1.0.1-with-a-very-long-name-that-is-longer-than-any-other-identifier-2026", "name": "long active", "isDeprecatedLicenseId": false, "referenceNumber": 9005, "seeAlso": []any{}, "isOsiApproved": false, "reference": "x", "detailsUrl": "y"})
+			l = append(l, map[string]any{"licenseId": "zz-verif-lower-2", "name": "lower-case active", "isDeprecatedLicenseId": false, "referenceNumber": 9006, "seeAlso": []any{}, "isOsiApproved": false, "reference": "x", "detailsUrl": "y"})
+			e = append(e, map[string]any{"licenseExceptionId": "Zz-Verif-new-exception-with-a-very-long-name-longer-than-every-license-id-on-any-list-2026.1", "name": "long exception", "isDeprecatedLicenseId": false, "referenceNumber": 9007, "seeAlso": []any{}, "reference": "x", "detailsUrl": "y"})
 			l = append(l, map[string]any{"licenseId": "Zz-Verif-Old-1.0", "name": "new deprecated", "isDeprecatedLicenseId": true, "referenceNumber": 9002, "seeAlso": []any{}, "isOsiApproved": false, "reference": "x", "detailsUrl": "y"})
 			e = append(e, map[string]any{"licenseExceptionId": "Zz-Verif-new-exception", "name": "new exception", "isDeprecatedLicenseId": false, "referenceNumber": 9003, "seeAlso": []any{}, "reference": "x", "detailsUrl": "y"})
 			e = append(e, map[string]any{"licenseExceptionId": "Zz-Verif-old-exception", "name": "deprecated exception", "isDeprecatedLicenseId": true, "referenceNumber": 9004, "seeAlso": []any{}, "reference": "x", "detailsUrl": "y"})
@@ -208,6 +211,10 @@ func checkGenerator(r *run) {
 			r.addViolation("generator-variant-fails:"+v.name, "C12.generator", fmt.Sprintf("the generator fails on a well-formed JSON refresh (%s): %s", v.name, trunc(out, 600)), mustJSON(map[string]string{"kind": "generator-variant", "variant": v.name}), 1)
 			continue
 		}
+		if v.name == "new-entries" {
+			// the refreshed tables compiled into the library: every id of the refreshed lists must behave as C12 says
+			refreshedLibrary(r, scratch)
+		}
 		for fi, want := range [][]string{wantAct, wantDep, wantExc} {
 			got, err := emitted(files[fi])
 			if err != nil {
@@ -240,4 +247,23 @@ func checkGenerator(r *run) {
 			}
 		}
 	}
+}
+
+// refreshedLibrary builds the worker against the scratch tree (whose tables were just regenerated from the perturbed
+// JSON) and runs the table / behaviour monitors of C12 on it.
+func refreshedLibrary(r *run, scratch string) {
+	saved := repoDir
+	repoDir = scratch
+	defer func() { repoDir = saved }()
+	dir := filepath.Join(r.dir, "refreshed")
+	os.MkdirAll(dir, 0o755)
+	bin, err := buildWorker(dir, false)
+	if err != nil {
+		r.addViolation("refreshed-tables-do-not-build", "C12.generator", "the library does not build with the tables regenerated from a refreshed JSON: "+trunc(err.Error(), 600), mustJSON(map[string]string{"kind": "generator-variant", "variant": "new-entries"}), 1)
+		return
+	}
+	ph := phase{Name: "tables-refreshed", Shards: 1}
+	kids := r.runPhase(&ph, bin)
+	r.collect(kids)
+	r.counters["refreshed_library_runs"]++
 }
